@@ -336,7 +336,7 @@ func runC24(c *fw.Ctx) {
 	var totalExec, totalPoints atomic.Int64
 	var maxPoints atomic.Int64
 	var cut atomic.Int64
-	deadline := time.Now().Add(time.Duration(c.Pick(60, 900)) * time.Second)
+	deadline := time.Now().Add(time.Duration(c.Pick(50, 900)) * time.Second)
 	c.ParDo(len(sel), 0, func(hi int) {
 		h := sel[hi]
 		var names []string
